@@ -534,6 +534,7 @@ func (s *pd6) OnReply(w *World, dg *DG, r *Reply) {
 
 // Finish: audit that no block was consumed without being told to somebody.
 func (s *pd6) Finish(w *World) {
+	s.serialCheck(w)
 	if s.n > 64 {
 		return
 	}
